@@ -208,8 +208,10 @@ def transferEntropy (x y : List σ) (lag : Nat) : K :=
   let b : K := sub (entropy3 fi y x : K) (entropy2 x y)
   sub a b
 
-/-- naive DFT of a real sequence: (re, im) of `Σ_t x_t e^{-2πi kt/n}` — given cos/sin tables -/
-def correlationSpectrum (cosT sinT : Nat → K) (x1 x2 : List K) (norm : Bool) : List K :=
+/-- `correlation_spectrum` before the final cut to `n//2+1` bins.  Naive DFT of a real sequence:
+`X_k = Σ_t x_t e^{-2πi kt/n}`, the twiddle factors given as tables `cosT j = cos(2πj/n)`,
+`sinT j = sin(2πj/n)`, `j < n` -/
+def correlationSpectrumFull (cosT sinT : Nat → K) (x1 x2 : List K) (norm : Bool) : List K :=
   let n := x1.length
   let a := removeBias x1
   let b := removeBias x2
@@ -218,11 +220,14 @@ def correlationSpectrum (cosT sinT : Nat → K) (x1 x2 : List K) (norm : Bool) :
   let d := RScalar.sqrt (mul (dot a a) (dot b b))
   let ccn := tabulate n fun k =>
     div (add (mul (re a k) (re b k)) (mul (im a k) (im b k))) (mul d (ofNat n))
-  let ccn := if norm then
-      let s := sumRange n (nth ccn)
-      ccn.map fun v => mul (div v s) (ofNat 2)
-    else ccn
-  ccn.take (n / 2 + 1)
+  if norm then
+    let s := sumRange n (nth ccn)
+    ccn.map fun v => mul (div v s) (ofNat 2)
+  else ccn
+
+/-- `correlation_spectrum(x1, x2, norm)[1]`: the first `n//2 + 1` bins -/
+def correlationSpectrum (cosT sinT : Nat → K) (x1 x2 : List K) (norm : Bool) : List K :=
+  (correlationSpectrumFull cosT sinT x1 x2 norm).take (x1.length / 2 + 1)
 
 end real
 
